@@ -124,8 +124,22 @@ def apply_op(v, op):
             v.settings_at(0)
             v.ansi_settings_at(len(v) - 1)
         v.find_settings(AnsiSetting('1'))
+        v.find_settings(AnsiSetting('31'), reverse=True)
         v == v.copy()
         AnsiStr(v)
+        len(v)
+        v.base_str
+        list(v)
+        v[0:1]
+        v[1:]
+        format(v, '>3')
+        'a' in v
+        v.count('a')
+        v.find('a')
+        v.split()
+        v.isalpha()
+        v.lower()
+        v.strip()
         return v
     if k == 'reparse':
         return AnsiString(str(v))
